@@ -274,6 +274,19 @@ theorem history_independent_lowmem {α : Type} [Scalar α] (t : Tables α) (maxS
   · have := Option.some.inj hb; subst this
     exact LowObj.run_spec _ rfl rfl rfl ops hne hvar
 
+/-- low-memory class, **every** history — raising calls included (posterior and derivative queries, which this
+class does not implement, and refused break points): they answer the exception and change nothing (as repaired:
+a derivative query used to leave its variable name cached and the next one answered `-0`), every other answer is
+that of a fresh object -/
+theorem history_independent_lowmem_all {α : Type} [Scalar α] (t : Tables α) (maxSize : Nat) (o : LowObj α)
+    (hb : LowObj.build t maxSize = some o) (ops : List (Op α)) :
+    o.run ops = lowSpecRunAll t maxSize [] ops := by
+  unfold LowObj.build at hb
+  split at hb
+  · cases hb
+  · have := Option.some.inj hb; subst this
+    exact LowObj.run_spec_all _ rfl ops
+
 /-! ## Options of the posterior accessors -/
 
 /-- `getHiddenStatesPosteriorProbabilities(probs, append)`, rescaled and log-sum classes, in every state
